@@ -31,6 +31,8 @@ type fnCtx struct {
 	decl  *ast.FuncDecl
 	recv  types.Object          // receiver variable (may be nil)
 	alias map[types.Object]ast.Expr // single-definition pure locals
+	def1  map[types.Object]ast.Expr // every local defined exactly once and never assigned again -> its defining expression
+	never map[types.Object]bool     // locals / parameters that are assigned somewhere (besides their definition)
 }
 
 func newFnCtx(info *types.Info, decl *ast.FuncDecl) *fnCtx {
@@ -41,7 +43,7 @@ func newFnCtx(info *types.Info, decl *ast.FuncDecl) *fnCtx {
 	defs := map[types.Object]ast.Expr{}
 	bad := map[types.Object]bool{}
 	markAssigned := func(e ast.Expr) {
-		if id := rootIdent(e); id != nil {
+		if id := c.lenRoot(e); id != nil {
 			if o := c.obj(id); o != nil {
 				bad[o] = true
 			}
@@ -96,7 +98,11 @@ func newFnCtx(info *types.Info, decl *ast.FuncDecl) *fnCtx {
 		}
 		return true
 	})
+	c.def1, c.never = map[types.Object]ast.Expr{}, bad
 	for o, rhs := range defs {
+		if !bad[o] {
+			c.def1[o] = rhs
+		}
 		if !bad[o] && c.pure(rhs, 0) {
 			c.alias[o] = rhs
 		}
@@ -109,6 +115,34 @@ func (c *fnCtx) obj(id *ast.Ident) types.Object {
 		return o
 	}
 	return c.info.Defs[id]
+}
+
+// lenRoot: like rootIdent, but nil when the path goes through an element of a SLICE (x[i] = v, &x[i], x[i].M() with a
+// pointer receiver): that does not change len(x) nor which array x denotes
+func (c *fnCtx) lenRoot(e ast.Expr) *ast.Ident {
+	for {
+		switch x := e.(type) {
+		case *ast.Ident:
+			return x
+		case *ast.SelectorExpr:
+			e = x.X
+		case *ast.IndexExpr:
+			if t := c.info.Types[x.X].Type; t != nil {
+				if _, isSlice := t.Underlying().(*types.Slice); isSlice {
+					return nil
+				}
+			}
+			e = x.X
+		case *ast.SliceExpr:
+			e = x.X
+		case *ast.ParenExpr:
+			e = x.X
+		case *ast.StarExpr:
+			e = x.X
+		default:
+			return nil
+		}
+	}
 }
 
 func rootIdent(e ast.Expr) *ast.Ident {
@@ -205,7 +239,11 @@ func (c *fnCtx) normSite(w *walker, kind string, n ast.Node) string {
 			if callee.Pkg() != nil {
 				pkg = callee.Pkg().Name() + "."
 			}
-			return recv + pkg + callee.Name() + "(" + strings.Join(args, ", ") + ")"
+			name := callee.Name()
+			if (name == "LT" || name == "GT") && strings.HasPrefix(recv, "(types.Int)") {
+				name = "LT|GT" // the two strict comparisons of sdk.Int dereference the same operands
+			}
+			return recv + pkg + name + "(" + strings.Join(args, ", ") + ")"
 		}
 	}
 	return c.norm(w, n, 0)
@@ -592,7 +630,7 @@ func (c *fnCtx) assigns(n ast.Node, root types.Object) bool {
 	}
 	found := false
 	hit := func(e ast.Expr) {
-		if id := rootIdent(e); id != nil && c.obj(id) == root {
+		if id := c.lenRoot(e); id != nil && c.obj(id) == root {
 			found = true
 		}
 	}
@@ -709,6 +747,9 @@ func terminates(b *ast.BlockStmt) bool {
 // first; the site itself is not included).
 func (c *fnCtx) auto(site ast.Node, path []ast.Node) *autoInfo {
 	if a := c.rangeIndex(site, path); a != nil {
+		return a
+	}
+	if a := c.searchIndex(site, path); a != nil {
 		return a
 	}
 	xe, need, ok := c.need(site)
@@ -983,7 +1024,7 @@ func (c *fnCtx) rangeIndex(site ast.Node, path []ast.Node) *autoInfo {
 				return nil
 			}
 			cid, ok := unparen(cond.X).(*ast.Ident)
-			if !ok || c.obj(cid) != iobj || !c.isLenOf(cond.Y, root, pth) {
+			if !ok || c.obj(cid) != iobj || !(c.isLenOf(cond.Y, root, pth) || c.madeWithLenOf(root, pth, cond.Y)) {
 				return nil
 			}
 			if c.assigns(rs.Body, root) || c.assigns(rs.Body, iobj) || !noClosure(p) {
@@ -1003,6 +1044,36 @@ func (c *fnCtx) rangeIndex(site ast.Node, path []ast.Node) *autoInfo {
 		}
 	}
 	return nil
+}
+
+// madeWithLenOf: X (a local slice variable defined once as make([]T, len(Y)) and never assigned again) and the
+// expression e = len(Y) with Y a local / field path that is never assigned in the function: len(X) = len(Y)
+func (c *fnCtx) madeWithLenOf(root types.Object, pth string, e ast.Expr) bool {
+	if strings.Contains(pth, ".") {
+		return false
+	}
+	rhs, ok := c.def1[root]
+	if !ok {
+		return false
+	}
+	mk, ok := unparen(rhs).(*ast.CallExpr)
+	if !ok || len(mk.Args) < 2 {
+		return false
+	}
+	if id, ok := mk.Fun.(*ast.Ident); !ok || id.Name != "make" {
+		return false
+	} else if _, isB := c.info.Uses[id].(*types.Builtin); !isB {
+		return false
+	}
+	lenArg, ok := unparen(mk.Args[1]).(*ast.CallExpr)
+	if !ok || len(lenArg.Args) != 1 {
+		return false
+	}
+	yr, yp, ok := c.lenPath(lenArg.Args[0])
+	if !ok || c.never[yr] || !c.isLenOf(mk.Args[1], yr, yp) {
+		return false
+	}
+	return c.isLenOf(e, yr, yp)
 }
 
 // coinIsNegativeRecv: the receiver X of a call X.IsNegative() on a cosmos-sdk Coin
@@ -1027,4 +1098,333 @@ func (c *fnCtx) coinIsNegativeRecv(site ast.Node) ast.Expr {
 		return nil
 	}
 	return sel.X
+}
+
+
+// searchIndex: X[:i], X[i:], X[i+c:], X[i] where i is defined once as strings.Index / IndexByte / IndexRune /
+// LastIndex (X, sep) - then -1 <= i <= len(X)-len(sep) - or sort.SearchStrings / SearchInts (X, v) - then
+// 0 <= i <= len(X) - is never assigned again, X is not assigned before the site (no enclosing loop, every
+// assignment to X comes later in the source), and for the strings functions a dominating test establishes i >= 0
+// (for X[i] after sort.Search*: i < len(X)).  Also the standard insert idiom after sort.Search*:
+//     X = append(X, v0); copy(X[i+1:], X[i:]); X[i] = v
+func (c *fnCtx) searchIndex(site ast.Node, path []ast.Node) *autoInfo {
+	var xe, ie ast.Expr
+	isIndex := false
+	switch x := site.(type) {
+	case *ast.IndexExpr:
+		xe, ie, isIndex = x.X, x.Index, true
+	case *ast.SliceExpr:
+		if x.Max != nil {
+			return nil
+		}
+		switch {
+		case x.Low == nil && x.High != nil:
+			xe, ie = x.X, x.High
+		case x.Low != nil && x.High == nil:
+			xe, ie = x.X, x.Low
+		default:
+			return nil
+		}
+	default:
+		return nil
+	}
+	root, pth, ok := c.lenPath(xe)
+	if !ok || strings.Contains(pth, ".") {
+		return nil
+	}
+	// i or i + c
+	var plus uint64
+	ie = unparen(ie)
+	if be, ok := ie.(*ast.BinaryExpr); ok && be.Op == token.ADD {
+		v, okc := c.constNat(be.Y)
+		if !okc {
+			return nil
+		}
+		plus, ie = v, unparen(be.X)
+	}
+	iid, ok := ie.(*ast.Ident)
+	if !ok {
+		return nil
+	}
+	iobj := c.obj(iid)
+	def, ok := c.def1[iobj]
+	if !ok {
+		return nil
+	}
+	call, ok := unparen(def).(*ast.CallExpr)
+	if !ok || len(call.Args) != 2 {
+		return nil
+	}
+	sel, ok := call.Fun.(*ast.SelectorExpr)
+	if !ok {
+		return nil
+	}
+	fn, ok := c.info.Uses[sel.Sel].(*types.Func)
+	if !ok || fn.Pkg() == nil {
+		return nil
+	}
+	r0, p0, ok := c.lenPath(call.Args[0])
+	if !ok || r0 != root || p0 != pth {
+		return nil
+	}
+	for _, p := range path {
+		switch p.(type) {
+		case *ast.ForStmt, *ast.RangeStmt, *ast.FuncLit, *ast.DeferStmt, *ast.GoStmt:
+			return nil
+		}
+	}
+	// assignments to X: none before the site - except, for the insert idiom, the single append
+	var assignPos []token.Pos
+	var appendStmt *ast.AssignStmt
+	ast.Inspect(c.decl.Body, func(m ast.Node) bool {
+		switch st := m.(type) {
+		case *ast.AssignStmt:
+			for _, l := range st.Lhs {
+				if id := c.lenRoot(l); id != nil && c.obj(id) == root {
+					if c.info.Defs[id] != nil && st.Tok == token.DEFINE {
+						continue // the definition of X itself
+					}
+					assignPos = append(assignPos, st.Pos())
+					appendStmt = st
+				}
+			}
+		case *ast.UnaryExpr:
+			if st.Op == token.AND {
+				if id := c.lenRoot(st.X); id != nil && c.obj(id) == root {
+					assignPos = append(assignPos, st.Pos())
+				}
+			}
+		case *ast.IncDecStmt:
+			if id := c.lenRoot(st.X); id != nil && c.obj(id) == root {
+				assignPos = append(assignPos, st.Pos())
+			}
+		}
+		return true
+	})
+	before := 0
+	for _, p := range assignPos {
+		if p < site.Pos() {
+			before++
+		}
+	}
+	pkg, name := fn.Pkg().Path(), fn.Name()
+	switch {
+	case pkg == "strings" && (name == "Index" || name == "LastIndex" || name == "IndexByte" || name == "IndexRune"):
+		if before != 0 {
+			return nil
+		}
+		sepLen := uint64(1)
+		if name == "Index" || name == "LastIndex" {
+			tv, ok := c.info.Types[call.Args[1]]
+			if !ok || tv.Value == nil || tv.Value.Kind() != constant.String {
+				return nil
+			}
+			sepLen = uint64(len(constant.StringVal(tv.Value)))
+		}
+		if name == "IndexRune" {
+			sepLen = 1
+		}
+		if plus > sepLen || (isIndex && (sepLen == 0 || plus >= sepLen)) {
+			return nil
+		}
+		if !c.dominatedNonNeg(site, path, iobj) {
+			return nil
+		}
+		return &autoInfo{need: 0}
+	case pkg == "sort" && (name == "SearchStrings" || name == "SearchInts" || name == "SearchFloat64s"):
+		if before == 0 {
+			if !isIndex && plus == 0 {
+				return &autoInfo{need: 0} // X[:i], X[i:] with 0 <= i <= len(X)
+			}
+			if isIndex && plus == 0 && c.dominatedBelowLen(site, path, iobj, root, pth) {
+				return &autoInfo{need: 0}
+			}
+			return nil
+		}
+		// insert idiom: exactly one assignment X = append(X, e) before the site, at the top level of the function body,
+		// and the site is in one of the next two statements: copy(X[i+1:], X[i:]) ; X[i] = v
+		if before != 1 || appendStmt == nil || len(assignPos) != 1 {
+			return nil
+		}
+		if len(appendStmt.Lhs) != 1 || len(appendStmt.Rhs) != 1 || appendStmt.Tok != token.ASSIGN {
+			return nil
+		}
+		ap, ok := unparen(appendStmt.Rhs[0]).(*ast.CallExpr)
+		if !ok || len(ap.Args) != 2 || ap.Ellipsis.IsValid() {
+			return nil
+		}
+		if id, ok := ap.Fun.(*ast.Ident); !ok || id.Name != "append" {
+			return nil
+		} else if _, isB := c.info.Uses[id].(*types.Builtin); !isB {
+			return nil
+		}
+		if r1, p1, ok := c.lenPath(ap.Args[0]); !ok || r1 != root || p1 != pth {
+			return nil
+		}
+		if lid, ok := appendStmt.Lhs[0].(*ast.Ident); !ok || c.obj(lid) != root {
+			return nil
+		}
+		// the append statement and the site's statement are in the same block, the append first, nothing in between
+		// but (at most) the copy statement
+		for _, p := range path {
+			blk, ok := p.(*ast.BlockStmt)
+			if !ok {
+				continue
+			}
+			for k, st := range blk.List {
+				if st != ast.Stmt(appendStmt) {
+					continue
+				}
+				for j := k + 1; j < len(blk.List) && j <= k+2; j++ {
+					if blk.List[j].Pos() <= site.Pos() && site.End() <= blk.List[j].End() {
+						// after the append len(X) = old+1 and i <= old: X[i+1:], X[i:], X[i] are in bounds
+						if plus <= 1 && !(isIndex && plus != 0) {
+							return &autoInfo{need: 0}
+						}
+					}
+				}
+			}
+		}
+	}
+	return nil
+}
+
+// dominatedNonNeg: a dominating condition establishes i >= 0 (i is never assigned after its definition)
+func (c *fnCtx) dominatedNonNeg(site ast.Node, path []ast.Node, iobj types.Object) bool {
+	return c.dominated(site, path, func(cond ast.Expr, positive bool) bool { return c.nonNeg(cond, positive, iobj) })
+}
+
+// dominatedBelowLen: a dominating condition establishes i < len(X)
+func (c *fnCtx) dominatedBelowLen(site ast.Node, path []ast.Node, iobj, root types.Object, pth string) bool {
+	return c.dominated(site, path, func(cond ast.Expr, positive bool) bool {
+		var f func(e ast.Expr, pos bool) bool
+		f = func(e ast.Expr, pos bool) bool {
+			switch x := unparen(e).(type) {
+			case *ast.UnaryExpr:
+				if x.Op == token.NOT {
+					return f(x.X, !pos)
+				}
+			case *ast.BinaryExpr:
+				switch x.Op {
+				case token.LAND:
+					return pos && (f(x.X, true) || f(x.Y, true))
+				case token.LOR:
+					return !pos && (f(x.X, false) || f(x.Y, false))
+				case token.LSS: // i < len(X)
+					if id, ok := unparen(x.X).(*ast.Ident); ok && c.obj(id) == iobj && c.isLenOf(x.Y, root, pth) {
+						return pos
+					}
+				case token.GEQ: // !(i >= len(X))
+					if id, ok := unparen(x.X).(*ast.Ident); ok && c.obj(id) == iobj && c.isLenOf(x.Y, root, pth) {
+						return !pos
+					}
+				}
+			}
+			return false
+		}
+		return f(cond, positive)
+	})
+}
+
+func (c *fnCtx) nonNeg(cond ast.Expr, positive bool, iobj types.Object) bool {
+	switch x := unparen(cond).(type) {
+	case *ast.UnaryExpr:
+		if x.Op == token.NOT {
+			return c.nonNeg(x.X, !positive, iobj)
+		}
+	case *ast.BinaryExpr:
+		switch x.Op {
+		case token.LAND:
+			return positive && (c.nonNeg(x.X, true, iobj) || c.nonNeg(x.Y, true, iobj))
+		case token.LOR:
+			return !positive && (c.nonNeg(x.X, false, iobj) || c.nonNeg(x.Y, false, iobj))
+		}
+		id, ok := unparen(x.X).(*ast.Ident)
+		if !ok || c.obj(id) != iobj {
+			return false
+		}
+		tv, ok := c.info.Types[x.Y]
+		if !ok || tv.Value == nil || tv.Value.Kind() != constant.Int {
+			return false
+		}
+		k, exact := constant.Int64Val(tv.Value)
+		if !exact {
+			return false
+		}
+		switch x.Op {
+		case token.LSS: // !(i < k), k <= 0  =>  i >= k ... only k == 0 gives i >= 0
+			return !positive && k == 0
+		case token.GEQ:
+			return positive && k >= 0
+		case token.GTR:
+			return positive && k >= -1
+		case token.LEQ:
+			return !positive && k >= -1
+		case token.NEQ: // i != -1 for an index function result
+			return positive && k == -1
+		case token.EQL:
+			return !positive && k == -1
+		}
+	}
+	return false
+}
+
+// dominated: some condition on the way to the site establishes the fact: an enclosing if / else, the negated
+// condition of a preceding `if C { ...leave }` in an enclosing block, an earlier operand of && / || the site sits
+// in.  (The variables the callers ask about are never assigned after their definition, so nothing invalidates.)
+func (c *fnCtx) dominated(site ast.Node, path []ast.Node, holds func(cond ast.Expr, positive bool) bool) bool {
+	for i, p := range path {
+		var child ast.Node = site
+		if i+1 < len(path) {
+			child = path[i+1]
+		}
+		switch s := p.(type) {
+		case *ast.BlockStmt:
+			for _, st := range s.List {
+				if ast.Node(st) == child {
+					break
+				}
+				if ifs, ok := st.(*ast.IfStmt); ok && ifs.Else == nil && terminates(ifs.Body) && holds(ifs.Cond, false) {
+					return true
+				}
+				// if C { return } else { return }: nothing continues; if C {...leave} with a nested leave in all branches
+				if ifs, ok := st.(*ast.IfStmt); ok && ifs.Else == nil && allLeave(ifs.Body) && holds(ifs.Cond, false) {
+					return true
+				}
+			}
+		case *ast.IfStmt:
+			if child == ast.Node(s.Body) && holds(s.Cond, true) {
+				return true
+			}
+			if s.Else != nil && child == ast.Node(s.Else) && holds(s.Cond, false) {
+				return true
+			}
+		case *ast.BinaryExpr:
+			if child == ast.Node(s.Y) {
+				if s.Op == token.LAND && holds(s.X, true) {
+					return true
+				}
+				if s.Op == token.LOR && holds(s.X, false) {
+					return true
+				}
+			}
+		}
+	}
+	return false
+}
+
+// allLeave: every path through the block ends in return / panic / branch (an if whose both branches leave, ...)
+func allLeave(b *ast.BlockStmt) bool {
+	if b == nil || len(b.List) == 0 {
+		return false
+	}
+	if terminates(b) {
+		return true
+	}
+	if ifs, ok := b.List[len(b.List)-1].(*ast.IfStmt); ok && ifs.Else != nil {
+		if eb, isBlk := ifs.Else.(*ast.BlockStmt); isBlk {
+			return allLeave(ifs.Body) && allLeave(eb)
+		}
+	}
+	return false
 }
